@@ -169,3 +169,22 @@ func VerifC13_entropy_faults() {
 
 // failures are sticky, so a reader that failed has failed for the read Sign depends on as well
 func c13OnlyDiscardedReadFailed(rd *c13Reader) bool { return false }
+
+// C03 (signature verification): no (r, s) and no byte string offered as a DER signature makes the
+// fork's verification panic.
+func VerifC03_ecdsa_verify() {
+	vUnwind(80)
+	vUseModels("bigalg")
+	c := c13Curve()
+	priv, err := GenerateKey(c, &c13Reader{failAt: 1000})
+	vAssume(err == nil)
+	if vBool("asn1") {
+		sig := vBytesC("sig", 0, vBound("C03_ecdsa_sig_len", 9, 12))
+		_ = VerifyASN1(&priv.PublicKey, vBytesC("digest", 0, 1), sig)
+		vReach("asn1")
+		return
+	}
+	r, s := c13Int("r", 2), c13Int("s", 2)
+	_ = Verify(&priv.PublicKey, vBytesC("digest", 0, 1), r, s)
+	vReach("raw")
+}
